@@ -30,7 +30,7 @@ def gen(rng, n, tier="quick"):
         fault = None
         if rng.random() < 0.45 and scn["targets"]:
             tk = rng.choice(sorted(scn["targets"]))
-            fault = {"target": L.file_of(tk), "op_index": rng.randint(0, 4), "k": rng.choice([0, 1, 7, 40, 10 ** 6])}
+            fault = {"target": L.file_of(tk), "op_index": rng.randint(0, 5), "k": rng.choice([0, 1, 7, 40, 10 ** 6])}
         for req, got, tags in _run_scenario(scn, fault):
             cases.append({"fam": NAME, "fn": "conform", "args": [req], "impl": got, "tags": tags, "scenario": scn, "fault": fault})
     for i in range(max(4, n // 10)):
@@ -58,11 +58,13 @@ def _run_scenario(scn, fault):
                       _oc(c["render"], True), _oc(c["render"], True)]
                 rel = os.path.basename(c["file"])
                 fsw = [[rel, c["old"]]] if c["old"] is not None else []
+                if c.get("tmp_old") is not None:
+                    fsw.append([rel + ".doctrans-tmp", c["tmp_old"]])   # left behind by an earlier, killed run
                 fired = fo is not None and fo.filename == c["file"] and fo.fired
                 fw = (fo.wire() or Sym("nofault")) if fired else Sym("nofault")
                 req = dumps([Sym("conform"), fsw, rel, c["search"], Sym(c["kind"]), an, fw])
                 res = c["result"]
-                got = dumps([opt(c["new"]), Sym("some") if c["tmp_left"] else Sym("none"),
+                got = dumps([opt(c["new"]), opt(c.get("tmp_new")),
                              [Sym("ok"), bool(res[1])] if res[0] == "ok" else [Sym("err"), Sym(res[1])],
                              [l.replace(c["file"], rel) for l in c["stdout"].split("\n") if l]])
                 branch = ("create" if c["old"] is None else "append" if not c["found"] else "same" if c["cmp"] else
@@ -99,6 +101,7 @@ def _cli_shape_impl(shape):
         import random
         scn = L.gen_scenario(random.Random(1), runs=1, allow_known=False)
         scn["truth"] = shape["truth"]
+        scn.update(body=None, wide=None, truth_edit=False, with_returns=False)
         scn["given"] = list(L.KINDS)
         scn["targets"] = {k: {"pre": "agreeing", "n_sur": 0, "position": "after", "trailing_newline": True, "sur_seed": 1, "members": 0}
                           for k in L.KINDS if k != shape["truth"]}
